@@ -124,6 +124,12 @@ class DegEval:
                     self.stores.append((render(l), (nm_ or "") + "[]", r, n))
                 return r
             a, b = self.expr(ch[0]), self.expr(ch[1])
+            # address arithmetic and tests on addresses (cursor + offset, cursor < end, p != NULL) carry no scale
+            ptr_ = ["*" in (strip(z, casts=True).get("type") or "") for z in ch[:2]]
+            if any(ptr_) and op in ("+", "-", "<", ">", "<=", ">=", "==", "!="):
+                if op in ("+", "-"):
+                    return a if ptr_[0] else b
+                return Fraction(0)
             if op in ("+", "-"):
                 return self.same(a, b, n, "the operands of '%s'" % op)
             if op == "*":
